@@ -32,7 +32,10 @@ def run(ctx):
                      "crypto-provider faults are not injected (the property does not quantify over them)",
                      "repo_pending_updates (read-through cache of stored epochs) is not part of the compared state"],
         nontrivial=lambda r, kv: int(kv.get("rejected", "0")),
-        oracle_keyer=keyer)
+        oracle_keyer=keyer,
+        # messages refused for their generation (more than 1024 ahead of the receiver's ratchet, first message of that sender in the
+        # epoch): the streams of the C05 scenarios with a full state comparison around every refusal
+        also=[(["c05", "--focus", "C04"], None, "c05")])
     return rc
 
 
